@@ -23,7 +23,7 @@ ASSUMPTIONS = [
     "rule patterns are read through the regex-level reference R1 (vf/ref/rulelang.py); the implicit rule texts themselves are taken from annet.implicit._implicit_tree (data)",
     "reference completion adds, with a default block, the defaults nested in it (what idempotence requires)",
 ]
-FLOORS = {"quick": {"completions": 2000, "defaults_added": 2000, "defaults_suppressed": 1000, "patches_checked": 1500, "front_runs": 150, "front_safe_runs": 150, "front_runs_clear_mode": 150, "block_lines_added": 4000, "pairs_with_vrf_change_on_an_interface": 300},
+FLOORS = {"quick": {"completions": 2000, "defaults_added": 2000, "defaults_suppressed": 1000, "patches_checked": 1500, "front_runs": 150, "front_safe_runs": 150, "front_runs_clear_mode": 150, "block_lines_added": 4000, "pairs_with_vrf_change_on_an_interface": 300, "ports_in_a_port_channel_on_both_sides": 500},
           "thorough": {"completions": 100000, "defaults_added": 100000, "defaults_suppressed": 50000, "patches_checked": 70000, "front_runs": 7000, "front_safe_runs": 7000, "front_runs_clear_mode": 7000, "block_lines_added": 80000, "pairs_with_vrf_change_on_an_interface": 6000}}
 MODELS = [("Huawei CE6870", ()), ("Huawei NE40E-X8", ()), ("Huawei Quidway S5300", ()), ("Arista DCS-7050", ()),
           ("Cisco Nexus 3132", ()), ("Cisco Nexus 3432", ()), ("Cisco Nexus 9316", ()), ("Cisco Nexus N9K-C9364", ()), ("Cisco Nexus 9504", ("spine1",)),
@@ -171,6 +171,9 @@ BLOCK_LINES = ["vrf member A", "vrf member B", "ip address 10.0.0.1/24", "ipv6 a
                "ip binding vpn-instance A", "ip binding vpn-instance B", "vrf forwarding A", "vrf B"]  # (no channel-group lines: leaving a port-channel re-applies the whole interface by design, defaults included)
 
 
+LAG_SPELLINGS = ["channel-group 10 mode active", "channel-group 10", "channel-group 10 force mode active", "channel-group 10 mode on"]
+
+
 def add_block_lines(xrng, t):
     """ordinary lines (VRF membership, addresses, descriptions) inside the interface blocks of a configuration: block logics that look at them
     must still treat the completed defaults of both sides alike"""
@@ -200,6 +203,14 @@ def check_case(seed, acc, blk=False):
         if not any(r.startswith("interface ") for r, _ in t):
             t.append([{"H": "interface 10GE1/0/1", "A": "interface Ethernet1"}.get(model[0], "interface Ethernet1/1"), []])
         acc.count("block_lines_added", add_block_lines(xrng, t))
+        # ports that are members of a port-channel on BOTH sides (the channel-group line may be spelled differently on the device and in the
+        # generator output: `channel-group 10`, `... mode active`, `... force mode active`); joining or leaving one re-applies the port by design
+        lag_members = {r for r, _ in t if r.startswith("interface ") and xrng.random() < 0.35}
+        for r, c in t:
+            if r in lag_members:
+                c.append([xrng.choice(LAG_SPELLINGS), []])
+        if lag_members:
+            acc.count("ports_in_a_port_channel_on_both_sides", len(lag_members))
     w = {"seed": seed, "blk": blk, "model": model, "tags": list(tags), "tree": t}
     try:
         m = complete(dev, t)
@@ -234,7 +245,10 @@ def check_case(seed, acc, blk=False):
             # the same interfaces on both sides, with other block lines: what changes is e.g. the VRF membership only
             keep = {r for r, _ in u}
             u += [[r, [[r2, copy.deepcopy(c2)] for r2, c2 in c if r2 not in BLOCK_LINES]] for r, c in t if r.startswith("interface ") and r not in keep]
-        u = [[r, [x for x in c if x[0] not in BLOCK_LINES]] if r.startswith("interface ") else [r, c] for r, c in u]
+        u = [[r, [x for x in c if x[0] not in BLOCK_LINES and not x[0].startswith("channel-group")]] if r.startswith("interface ") else [r, c] for r, c in u]
+        for r, c in u:
+            if r in lag_members:
+                c.append([xrng.choice(LAG_SPELLINGS), []])
         acc.count("block_lines_added", add_block_lines(xrng, u))
         ti = {r: {x[0] for x in c} for r, c in t if r.startswith("interface ")}
         if any(r in ti and any(x[0].startswith(("vrf ", "ip binding")) for x in c) and {x[0] for x in c if x[0].startswith(("vrf ", "ip binding"))} != {y for y in ti[r] if y.startswith(("vrf ", "ip binding"))}
